@@ -1,0 +1,104 @@
+//go:build verif
+
+// Contracts for control-flow lowering (read as text by /verif's govc; comment-only).
+// A `br L` emitted while SpecOpen blocks are open targets the block opened at level SpecOpen - L.
+// break must reach the loop's outer `block`, continue the `loop` itself; both are computed from
+// the context's blockDepth, so every construct has to hand its sub-blocks a context whose
+// blockDepth equals the writer's real nesting depth.
+
+package statement
+
+//@ import antlr "github.com/antlr4-go/antlr/v4"
+//@ ignorepkg github.com/synnaxlabs/arc/parser
+//@ ignorepkg github.com/synnaxlabs/arc/symbol
+//@ ignorepkg github.com/synnaxlabs/arc/compiler/wasm
+//@ ignorepkg github.com/synnaxlabs/x/errors
+
+//@ spec func balanced() bool = forall w *wasm.Writer :: wasm.SpecOpen[w] == old(wasm.SpecOpen[w])
+
+//@ # statements other than if / for / break / continue: assumed to leave the nesting balanced
+//@ trusted func compileVariableDeclaration(ctx context.Context[parser.IVariableDeclarationContext]) (err error)
+//@   ensures err == nil ==> (forall w *wasm.Writer :: wasm.SpecOpen[w] == old(wasm.SpecOpen[w]))
+//@   modifies wasm.SpecOpen
+//@ trusted func compileAssignment(ctx context.Context[parser.IAssignmentContext]) (err error)
+//@   ensures err == nil ==> (forall w *wasm.Writer :: wasm.SpecOpen[w] == old(wasm.SpecOpen[w]))
+//@   modifies wasm.SpecOpen
+//@ trusted func compileReturnStatement(ctx context.Context[parser.IReturnStatementContext]) (err error)
+//@   ensures err == nil ==> (forall w *wasm.Writer :: wasm.SpecOpen[w] == old(wasm.SpecOpen[w]))
+//@   modifies wasm.SpecOpen
+//@ trusted func compileExpressionStatement(ctx context.Context[parser.IExpressionContext]) (t types.Type, err error)
+//@   ensures err == nil ==> (forall w *wasm.Writer :: wasm.SpecOpen[w] == old(wasm.SpecOpen[w]))
+//@   modifies wasm.SpecOpen
+//@ # the series / range loop forms are not under contract yet: assumed balanced
+//@ trusted func compileForRange(ctx context.Context[parser.IForStatementContext], clause parser.IForClauseContext, name string, funcCall parser.IFunctionCallSuffixContext) (err error)
+//@   requires context.SpecConsistent(ctx) && context.SpecLoopsOK(ctx)
+//@   ensures err == nil ==> (forall w *wasm.Writer :: wasm.SpecOpen[w] == old(wasm.SpecOpen[w]))
+//@   modifies wasm.SpecOpen
+//@ trusted func compileForSeriesIteration(ctx context.Context[parser.IForStatementContext], clause parser.IForClauseContext, elemName string, indexName string, expr parser.IExpressionContext) (err error)
+//@   requires context.SpecConsistent(ctx) && context.SpecLoopsOK(ctx)
+//@   ensures err == nil ==> (forall w *wasm.Writer :: wasm.SpecOpen[w] == old(wasm.SpecOpen[w]))
+//@   modifies wasm.SpecOpen
+
+//@ func Compile(ctx context.Context[parser.IStatementContext]) (diverged bool, err error)
+//@   requires context.SpecConsistent(ctx) && context.SpecLoopsOK(ctx)
+//@   ensures err == nil ==> (forall w *wasm.Writer :: wasm.SpecOpen[w] == old(wasm.SpecOpen[w]))
+//@   modifies wasm.SpecOpen
+
+//@ func CompileBlock(ctx context.Context[parser.IBlockContext]) (diverged bool, err error)
+//@   allow_panic
+//@   requires context.SpecConsistent(ctx) && context.SpecLoopsOK(ctx)
+//@   ensures err == nil ==> (forall w *wasm.Writer :: wasm.SpecOpen[w] == old(wasm.SpecOpen[w]))
+//@   modifies wasm.SpecOpen
+//@   loop 0 invariant forall w *wasm.Writer :: wasm.SpecOpen[w] == old(wasm.SpecOpen[w])
+//@   loop 0 invariant blockCtx.Writer == ctx.Writer && blockCtx.BlockDepth() == ctx.BlockDepth() && context.SpecLoopsOK(blockCtx)
+//@   loop 0 modifies wasm.SpecOpen
+
+//@ func compileIfStatement(ctx context.Context[parser.IIfStatementContext]) (diverged bool, err error)
+//@   requires context.SpecConsistent(ctx) && context.SpecLoopsOK(ctx)
+//@   ensures err == nil ==> (forall w *wasm.Writer :: wasm.SpecOpen[w] == old(wasm.SpecOpen[w]))
+//@   modifies wasm.SpecOpen
+//@   loop 0 invariant elseIfCtx.Writer == ctx.Writer && elseIfCtx.BlockDepth() == ctx.BlockDepth() + 1 + __ri(0) && context.SpecLoopsOK(elseIfCtx)
+//@   loop 0 invariant wasm.SpecOpen[ctx.Writer] == old(wasm.SpecOpen[ctx.Writer]) + 1 + __ri(0) && wasm.SpecOpen[ctx.Writer] <= 2147483647
+//@   loop 0 invariant forall w *wasm.Writer :: w != ctx.Writer ==> wasm.SpecOpen[w] == old(wasm.SpecOpen[w])
+//@   loop 0 modifies wasm.SpecOpen
+//@   loop 1 invariant wasm.SpecOpen[ctx.Writer] == old(wasm.SpecOpen[ctx.Writer]) + 1 + len(ctx.AST.AllElseIfClause()) - __ri(0)
+//@   loop 1 invariant forall w *wasm.Writer :: w != ctx.Writer ==> wasm.SpecOpen[w] == old(wasm.SpecOpen[w])
+//@   loop 1 modifies wasm.SpecOpen
+
+//@ func compileForStatement(ctx context.Context[parser.IForStatementContext]) (diverged bool, err error)
+//@   requires context.SpecConsistent(ctx) && context.SpecLoopsOK(ctx)
+//@   ensures err == nil ==> (forall w *wasm.Writer :: wasm.SpecOpen[w] == old(wasm.SpecOpen[w]))
+//@   modifies wasm.SpecOpen
+//@ inline func compileForSingleIdent(ctx context.Context[parser.IForStatementContext], clause parser.IForClauseContext, name string, expr parser.IExpressionContext) error
+//@ inline func compileForTwoIdent(ctx context.Context[parser.IForStatementContext], clause parser.IForClauseContext, expr parser.IExpressionContext) error
+//@ ignore func isRangeCallExpr() bool
+//@ ignorepkg github.com/antlr4-go/antlr/v4
+
+//@ func compileForCondition(ctx context.Context[parser.IForStatementContext], expr parser.IExpressionContext) (err error)
+//@   requires context.SpecConsistent(ctx) && context.SpecLoopsOK(ctx)
+//@   ensures err == nil ==> (forall w *wasm.Writer :: wasm.SpecOpen[w] == old(wasm.SpecOpen[w]))
+//@   # the loop entry records the level of the `block` (one below the innermost) and of the `loop` (innermost)
+//@   atcall EnterLoop entry.BreakDepth == wasm.SpecOpen[ctx.Writer] - 1 && entry.ContinueDepth == wasm.SpecOpen[ctx.Writer]
+//@   # the exit test branches to the `block`, the back edge to the `loop`
+//@   atcall WriteBrIf int(labelIdx) == wasm.SpecOpen[ctx.Writer] - breakDepth
+//@   atcall WriteBr int(labelIdx) == wasm.SpecOpen[ctx.Writer] - continueDepth
+//@   modifies wasm.SpecOpen
+
+//@ func compileForInfinite(ctx context.Context[parser.IForStatementContext]) (err error)
+//@   requires context.SpecConsistent(ctx) && context.SpecLoopsOK(ctx)
+//@   ensures err == nil ==> (forall w *wasm.Writer :: wasm.SpecOpen[w] == old(wasm.SpecOpen[w]))
+//@   atcall EnterLoop entry.BreakDepth == wasm.SpecOpen[ctx.Writer] - 1 && entry.ContinueDepth == wasm.SpecOpen[ctx.Writer]
+//@   atcall WriteBr int(labelIdx) == wasm.SpecOpen[ctx.Writer] - continueDepth
+//@   modifies wasm.SpecOpen
+
+//@ # break targets the recorded `block` level of the innermost loop, continue its `loop` level
+//@ func compileBreakStatement(ctx context.Context[parser.IBreakStatementContext]) (err error)
+//@   requires context.SpecConsistent(ctx) && context.SpecLoopsOK(ctx)
+//@   ensures forall w *wasm.Writer :: wasm.SpecOpen[w] == old(wasm.SpecOpen[w])
+//@   atcall WriteBr int(labelIdx) == wasm.SpecOpen[ctx.Writer] - entry.BreakDepth && entry.BreakDepth >= 1 && entry.BreakDepth <= ctx.BlockDepth()
+//@   modifies nothing
+//@ func compileContinueStatement(ctx context.Context[parser.IContinueStatementContext]) (err error)
+//@   requires context.SpecConsistent(ctx) && context.SpecLoopsOK(ctx)
+//@   ensures forall w *wasm.Writer :: wasm.SpecOpen[w] == old(wasm.SpecOpen[w])
+//@   atcall WriteBr int(labelIdx) == wasm.SpecOpen[ctx.Writer] - entry.ContinueDepth && entry.ContinueDepth >= 2 && entry.ContinueDepth <= ctx.BlockDepth()
+//@   modifies nothing
